@@ -1112,7 +1112,8 @@ Lemma rarg_ok_stat w w1 a : stat w w1 -> rarg_okP w a -> rarg_okP w1 a.
 Proof. intros St H. destruct a; simpl in *; auto. eapply stat_okP; eauto. Qed.
 Lemma resolve_ok w a : Inv w -> arg_ok w a = true -> rarg_okP w (resolve w a).
 Proof.
-  intros HI H. destruct a as [x|s u k| |]; [now apply obj_ok_P | | exact I | exact I].
+  intros HI H. destruct a as [x|s u k| |]; [| | exact I | exact I].
+  { simpl in H. apply andb_true_iff in H. destruct H as [_ H]. now apply obj_ok_P. }
   unfold resolve. destruct (ports w s u) as [|d t] eqn:E; [exact I|].
   destruct (InvS_side s w HI) as [IS _]. unfold rarg_okP. apply (I_ok _ _ IS u). rewrite E.
   apply nth_In. apply Nat.mod_upper_bound. simpl. lia.
@@ -2233,6 +2234,85 @@ Proof.
   - eapply stat_trans; [exact St1|]. eapply stat_trans; eauto.
 Qed.
 End SideX.
+
+(* ================================================================ which port changes *)
+Lemma index_of_app_notin x l1 l2 : ~ In x l1 -> index_of x (l1 ++ x :: l2) = Some (length l1).
+Proof.
+  induction l1 as [|a l1 IH]; intro NI; simpl.
+  - now rewrite obj_eqb_refl.
+  - destruct (obj_eqb a x) eqn:E; [apply obj_eqb_eq in E; subst; exfalso; apply NI; now left|].
+    rewrite IH; [reflexivity | intro H; apply NI; now right].
+Qed.
+Lemma index_of_nth_NoDup l k d : NoDup l -> k < length l -> index_of (nth k l d) l = Some k.
+Proof.
+  intros ND Lk. destruct (nth_split' l k d Lk) as (l1 & l2 & EL & L1).
+  remember (nth k l d) as x eqn:Hx. clear Hx. subst l. rewrite <- L1. apply index_of_app_notin.
+  apply NoDup_remove_2 in ND. intro H. apply ND. apply in_or_app. now left.
+Qed.
+(* pop(i) on a fixed-size list: exactly port i (python index arithmetic included) receives a new placeholder *)
+Lemma pop_fixed_vacates sd w u i k b : InvS sd w -> pfixed w sd u = true ->
+  norm_index i (length (ports w sd u)) = Some k ->
+  ports (fst (pop b w sd u i)) sd u = upd (ports w sd u) k (M_ (fresh w)).
+Proof.
+  intros HI Fx Ek. unfold pop. rewrite Fx, Ek.
+  change (let (w1, m) := new_missing w sd u in replace w1 sd u (RObj (nth k (ports w sd u) (M_ 0))) (RObj m))
+    with (remove w sd u (RObj (nth k (ports w sd u) (M_ 0)))).
+  apply remove_vacates. apply index_of_nth_NoDup; [apply (I_nodup _ _ HI) | eapply norm_index_lt; eauto].
+Qed.
+(* pop(i) on a variable-size list removes exactly port i *)
+Lemma pop_var_shrinks sd w u i k b : pfixed w sd u = false ->
+  norm_index i (length (ports w sd u)) = Some k ->
+  ports (fst (pop b w sd u i)) sd u = remove_nth k (ports w sd u).
+Proof.
+  intros Fx Ek. unfold pop. rewrite Fx, Ek. cbn [ok fst]. destruct b.
+  - unfold undock. change (ports (upd_ports w sd u (remove_nth k (ports w sd u))) sd u = remove_nth k (ports w sd u)).
+    apply ports_upd_ports_eq.
+  - apply ports_upd_ports_eq.
+Qed.
+(* L[i] = x writes port i and leaves the other ports of that list alone *)
+Lemma set_stream_writes sd w u i k x : norm_index i (length (ports w sd u)) = Some k ->
+  ports (fst (set_stream w sd u i (RObj x))) sd u = upd (ports w sd u) k x.
+Proof.
+  intro Ek. unfold set_stream, as_stream. rewrite Ek. cbn [ok fst]. rewrite ports_upd_ports_eq.
+  destruct (redock_misc sd u x (undock w sd (nth k (ports w sd u) x))) as (_ & _ & Pu). rewrite Pu. reflexivity.
+Qed.
+
+(* ================================================================ whatever leaves a port is undocked (streams and placeholders alike) *)
+Lemma redock_ptr_other sd u x y w : y <> x -> y <> M_ (fresh w) ->
+  ptr (redock w sd u x) sd y = ptr w sd y.
+Proof.
+  intros N Nm. unfold redock. destruct (ptr w sd x) as [v|]; [|unfold dock; now rewrite ptr_upd_ptr_neq].
+  destruct (v =? u); [reflexivity|].
+  destruct (mem x (ports w sd v)); [|unfold dock; now rewrite ptr_upd_ptr_neq].
+  unfold dock. rewrite ptr_upd_ptr_neq by assumption.
+  apply obj_eqb_neq in N. apply obj_eqb_neq in Nm.
+  unfold vacate, new_missing. cbn [ports bump_fresh upd_ptr].
+  destruct (index_of x (ports w sd v)); unfold undock, upd_ports, upd_ptr, bump_fresh; cbn [ptr];
+    rewrite ?side_eqb_refl, ?side_eqb_other'; cbn [andb]; rewrite ?N, ?Nm; reflexivity.
+Qed.
+Lemma set_stream_undocks_old sd w u i k x :
+  norm_index i (length (ports w sd u)) = Some k ->
+  let old := nth k (ports w sd u) x in
+  old <> x -> old <> M_ (fresh w) ->
+  ptr (fst (set_stream w sd u i (RObj x))) sd old = None.
+Proof.
+  intros Ek old N Nm. unfold set_stream, as_stream. rewrite Ek. cbn [ok fst].
+  change (ptr (redock (undock w sd old) sd u x) sd old = None).
+  rewrite redock_ptr_other; [unfold undock; apply ptr_upd_ptr_eq | exact N | exact Nm].
+Qed.
+Lemma pop_var_undocks sd w u i k : pfixed w sd u = false ->
+  norm_index i (length (ports w sd u)) = Some k ->
+  ptr (fst (pop true w sd u i)) sd (nth k (ports w sd u) (M_ 0)) = None.
+Proof.
+  intros Fx Ek. unfold pop. rewrite Fx, Ek. cbn [ok fst]. unfold undock. apply ptr_upd_ptr_eq.
+Qed.
+Lemma clear_var_undocks sd w u y : pfixed w sd u = false -> In y (ports w sd u) ->
+  ptr (fst (clear w sd u)) sd y = None.
+Proof.
+  intros Fx HI. unfold clear. rewrite Fx. cbn [ok fst].
+  change (ptr (undock_all w sd (ports w sd u)) sd y = None). rewrite undock_all_ptr.
+  apply mem_In in HI. now rewrite HI.
+Qed.
 
 (* ================================================================ every operation, every history *)
 Theorem step_Inv_all w o : Inv w -> wfb w o = true -> preb w o = true -> Inv (fst (step w o)).
